@@ -87,11 +87,12 @@ type sfHook struct {
 	lastSum uint64
 
 	// fault plan: fail the failAt-th operation of a crash kind (counted from 0); -1 = none
-	failAt   int
-	failErr  error
-	partial  bool
-	nCrashOp int
-	injected *sfOpRec
+	failAt     int
+	failErr    error
+	partial    bool
+	nCrashOp   int
+	injected   *sfOpRec
+	injectedAt time.Time // (virtual) time of the injection
 }
 
 func newSFHook(dir string) *sfHook { return &sfHook{dir: dir, failAt: -1} }
@@ -158,6 +159,7 @@ func (h *sfHook) Before(op *serf.VerifFSOp) error {
 			rec.Err = "INJECTED " + inject.Error()
 			r2 := rec
 			h.injected = &r2
+			h.injectedAt = time.Now()
 		}
 		h.nCrashOp++
 	}
@@ -208,7 +210,8 @@ type sfStep struct {
 	Pre, Post c10State
 	// Touched: member name -> addresses this step may assign ("" = removed)
 	Touched   map[string][]string
-	ClocksAny bool // after a recorded leave without rejoin the clocks are reset on replay: any value accepted
+	ClocksAny bool      // after a recorded leave without rejoin the clocks are reset on replay: any value accepted
+	At        time.Time // (virtual) time at which the step began
 }
 
 // sfMatchPost reports whether r equals the state after step s.
@@ -272,15 +275,15 @@ func (s *sfStep) matchMid(r c10State) bool {
 }
 
 type sfRun struct {
-	Steps     []sfStep
-	Sent      []string // signature of every event handed to the snapshotter
-	Forwarded []string // signature of every event seen on the pass-through channel
-	Sessions  int
-	Restarts  int
+	Steps           []sfStep
+	Sent            []string // signature of every event handed to the snapshotter
+	Forwarded       []string // signature of every event seen on the pass-through channel
+	Sessions        int
+	Restarts        int
 	RestartMismatch int
-	OpenRetries int
-	FaultStep int // step during which the fault was injected (-1 = none)
-	Err       error
+	OpenRetries     int
+	FaultStep       int // step during which the fault was injected (-1 = none)
+	Err             error
 }
 
 func sfEventSig(e serf.Event) string {
@@ -350,8 +353,9 @@ func sfDrive(path string, ops []c10Op, minCompact int, rejoin bool, h *sfHook) (
 		drainOut()
 	}
 	clocksAny := false
+	stepAt := time.Now()
 	addStep := func(kind string, pre c10State, touched map[string][]string) {
-		run.Steps = append(run.Steps, sfStep{Kind: kind, Pre: pre, Post: model.st.clone(), Touched: touched, ClocksAny: clocksAny})
+		run.Steps = append(run.Steps, sfStep{Kind: kind, Pre: pre, Post: model.st.clone(), Touched: touched, ClocksAny: clocksAny, At: stepAt})
 	}
 	setStep := func(i int) {
 		if h != nil {
@@ -372,6 +376,7 @@ func sfDrive(path string, ops []c10Op, minCompact int, rejoin bool, h *sfHook) (
 	for i, o := range ops {
 		step := i + 1
 		setStep(step)
+		stepAt = time.Now()
 		pre := model.st.clone()
 		var touched map[string][]string
 		switch o.Kind {
@@ -438,6 +443,7 @@ func sfDrive(path string, ops []c10Op, minCompact int, rejoin bool, h *sfHook) (
 		noteFault(step)
 	}
 	setStep(len(ops) + 1)
+	stepAt = time.Now()
 	pre := model.st.clone()
 	closeSession()
 	model.st.Clock = uint64(snap.LastClock())
@@ -493,3 +499,13 @@ func sfFileList(c *sfCapture) string {
 }
 
 var errSFInjected = errors.New("injected")
+
+func sfFileClass(f string) string {
+	if strings.HasSuffix(f, ".compact") {
+		return "compact"
+	}
+	if f == "" {
+		return "-"
+	}
+	return "snap"
+}
